@@ -21,7 +21,7 @@ rows=['| seed | site and effect (agent\'s words, shortened) | first run | now | 
 log={}
 cur=None
 if os.path.exists('/tmp/seeds_check.log'):
-    for l in open('/tmp/seeds_check.log'):
+    for l in open('/tmp/seeds_check.log',errors='replace'):
         m=re.match(r'(C\d\d-[A-Z])/patch.diff: fired=\[(.*)\]',l)
         if m: cur=m.group(1); log[cur]={'fired':m.group(2).split(),'lines':[]}
         elif cur and l.startswith('    ['): log[cur]['lines'].append(l.strip())
